@@ -13,8 +13,13 @@ import sys
 
 VERIF = os.path.dirname(os.path.dirname(os.path.abspath(__file__)))
 
-SEED_HINT = """- Earlier rounds already produced the following changes for this property. Do NOT repeat them or close variants of them; pick a different function/file among the anchors, a different clause of the statement, and a different kind of mistake. Prefer, this time, one of: (a) a mistake on an ERROR, TIMEOUT or CANCELLATION path (a handler that swallows, a cleanup that is skipped, a state flag that is left set/unset when an awaited call raises); (b) a boundary/identity mistake (`<` vs `<=`, `is` vs `==`, the wrong one of two similar fields, a stale copy instead of the live value); (c) a change of data-structure discipline (a set where order mattered, iterating a live dict, a shared mutable default, a cached value that is not invalidated):
-@PRIOR@"""
+SEED_HINTS = {
+    "E": """- Earlier rounds already produced the following changes for this property. Do NOT repeat them or close variants of them; pick a different function/file among the anchors, a different clause of the statement, and a different kind of mistake. Prefer, this time, one of: (a) a mistake on an ERROR, TIMEOUT or CANCELLATION path (a handler that swallows, a cleanup that is skipped, a state flag that is left set/unset when an awaited call raises); (b) a boundary/identity mistake (`<` vs `<=`, `is` vs `==`, the wrong one of two similar fields, a stale copy instead of the live value); (c) a change of data-structure discipline (a set where order mattered, iterating a live dict, a shared mutable default, a cached value that is not invalidated):
+@PRIOR@""",
+    "F": """- Earlier rounds already produced the following changes for this property. Do NOT repeat them or close variants of them. This time look AWAY from the headline functions: break the property through code the mechanism merely relies on -- a small helper, a property/getter, a cache or memo, a default argument, configuration plumbing between two classes (a parameter passed under the wrong name, a unit mix-up ms vs s, a flag whose default flipped), an initialisation or reset path (what `__init__`, `seek`, `assign`, `begin_*`, `reset_*`, reconnect or re-subscribe leave behind), a utility/codec module the mechanism calls, or the condition under which a step is SKIPPED. The change must still genuinely violate the property's statement, not just an internal detail:
+@PRIOR@""",
+}
+SEED_HINT = None
 
 NEUTRAL_STYLE = ("a third kind of clean-up than simple renames or extract-method: replace an if/elif chain by a dict dispatch or the reverse; "
                  "merge nested `if`s with `and` / split a compound condition into nested `if`s; apply De Morgan; use early `continue` in loops instead of nesting; "
@@ -51,10 +56,10 @@ def main():
             for m in sorted(glob.glob(os.path.join(VERIF, "seeded", f"{pid}-*", "meta.json"))):
                 try:
                     mm = json.load(open(m))
-                    prior.append("  * " + " ".join(str(mm.get("summary", "")).split())[:330])
+                    prior.append("  * " + " ".join(str(mm.get("summary", "")).split())[:260])
                 except Exception:
                     pass
-            out = out.replace("@HINT@", SEED_HINT.replace("@PRIOR@", "\n".join(prior)))
+            out = out.replace("@HINT@", SEED_HINTS.get(suffix, SEED_HINTS["F"]).replace("@PRIOR@", "\n".join(prior)))
         else:
             out = out.replace("@STYLE@", NEUTRAL_STYLE)
         open(f"{base}/PROMPT.md", "w").write(out)
